@@ -479,5 +479,27 @@ class C04Bounded(Bounded):
                         failures.append({"text": ("KNOWN-BOM " if known else "") + first, "input": [chain, src]})
                     if len(samples) < 5 and ln == 2:
                         samples.append({"chain": chain, "source": src, "values": [M.native_text(x.s) for x in got]})
-        return {"evaluations": n, "distinct_nontrivial": nontriv, "failures": list(failures)[:40], "failure_counts": {str(k): v for k, v in _F.seen.items()}, "bound": f"payloads of <= {maxlen} symbols over {alphabet!r}, 10 modifier chains, prefixes 0..5 x suffixes (0,1,2,5) of random bytes",
+        # value lists: every value of a list is encoded by itself - the result is the concatenation of the single-value results
+        singles = ["ab", "cd", "a", "Zä", "x y"]
+        for chain in (["base64"], ["base64offset"], ["wide", "base64"], ["wide", "base64offset"], ["utf16le", "base64"], ["utf16be", "base64offset"], ["utf16", "base64"]):
+            key = "f|" + "|".join(chain)
+            one = {}
+            for p_ in singles:
+                try:
+                    one[p_] = [M.native_text(x.s) for x in vals(SigmaDetectionItem.from_mapping(key, p_))]
+                except SigmaError:
+                    one[p_] = None
+            for a_, b_ in itertools.permutations(singles, 2):
+                n += 1
+                if one[a_] is None or one[b_] is None:
+                    continue
+                nontriv += 1
+                try:
+                    got2 = [M.native_text(x.s) for x in vals(SigmaDetectionItem.from_mapping(key, [a_, b_]))]
+                except Exception as e:
+                    failures.append({"text": f"{chain} on the list {[a_, b_]!r}: {type(e).__name__}: {e}", "input": [chain, [a_, b_]]})
+                    continue
+                if got2 != one[a_] + one[b_]:
+                    failures.append({"text": f"{chain} on the list {[a_, b_]!r}: values {got2} are not the values of {a_!r} followed by the values of {b_!r} ({one[a_] + one[b_]})", "input": [chain, [a_, b_]]})
+        return {"evaluations": n, "distinct_nontrivial": nontriv, "failures": list(failures)[:40], "failure_counts": {str(k): v for k, v in _F.seen.items()}, "bound": f"payloads of <= {maxlen} symbols over {alphabet!r}, 10 modifier chains, prefixes 0..5 x suffixes (0,1,2,5) of random bytes; 7 chains x 20 two-value lists",
                 "rule": "every (payload, chain) pair is distinct; non-trivial = not rejected by the library", "samples": samples, "exhaustive": True}
